@@ -1075,6 +1075,9 @@ def remove_redundant_transpose_reduce_ir(graph: ir.Graph) -> None:
             # 0. Safety: Reducer output must NOT be used by anything else
             # (Because we are about to change its semantic output from NHWC to NCHW)
             reducer_out_val = _node_output(reducer)
+            if reducer_out_val is None or reducer_out_val.is_graph_output():
+                # The reducer output is observable in its current layout.
+                continue
             reducer_consumers = _consumer_nodes(nodes, reducer_out_val)
             # We expect exactly one consumer: 'node' (T2)
             if len(reducer_consumers) != 1:
@@ -1193,7 +1196,7 @@ def _collect_add_transpose_forest(
                 return None
 
         out = _node_output(node)
-        if out is None:
+        if out is None or out.is_graph_output():
             return None
         consumers = _consumer_nodes(nodes, out)
         for consumer in consumers:
@@ -1375,7 +1378,7 @@ def remove_redundant_transpose_pairs_ir(graph: ir.Graph) -> None:
                         break
 
                 out = _node_output(cur)
-                if out is None:
+                if out is None or out.is_graph_output():
                     ok = False
                     break
                 consumers = _consumer_nodes(nodes, out)
@@ -1495,6 +1498,9 @@ def remove_redundant_transpose_pairs_ir(graph: ir.Graph) -> None:
                 out = _node_output(node)
                 if out is None:
                     continue
+                if out.is_graph_output():
+                    ok = False
+                    break
                 for consumer in _consumer_nodes(nodes, out):
                     if consumer in elem_nodes:
                         continue
@@ -1549,6 +1555,8 @@ def remove_redundant_transpose_pairs_ir(graph: ir.Graph) -> None:
                 t_out = _node_output(t_node)
                 if t_out is None:
                     continue
+                if t_out.is_graph_output():
+                    continue
                 if not _consumer_nodes(live_nodes, t_out):
                     graph.remove(t_node)
 
@@ -1576,7 +1584,7 @@ def remove_redundant_transpose_pairs_ir(graph: ir.Graph) -> None:
             if perm1 is None or not _is_inverse_perm(perm1, perm2):
                 continue
             t1_out = _node_output(T1)
-            if t1_out is None:
+            if t1_out is None or t1_out.is_graph_output():
                 continue
             ok = True
             for consumer in _consumer_nodes(nodes, t1_out):
@@ -1591,6 +1599,9 @@ def remove_redundant_transpose_pairs_ir(graph: ir.Graph) -> None:
                 out = _node_output(node)
                 if out is None:
                     continue
+                if out.is_graph_output():
+                    ok = False
+                    break
                 for consumer in _consumer_nodes(nodes, out):
                     if consumer is t2_node:
                         continue
@@ -1644,13 +1655,18 @@ def remove_redundant_transpose_pairs_ir(graph: ir.Graph) -> None:
                 cur = consumers[0]
                 T2: Optional[ir.Node] = None
                 steps = 0
+                if T1_out is None or T1_out.is_graph_output():
+                    i += 1
+                    continue
                 while steps < 8:
                     steps += 1
                     m = cur
                     if m.op_type in ALLOWED_ELEMWISE:
+                        cur_val = _node_output(m)
+                        if cur_val is None or cur_val.is_graph_output():
+                            break
                         chain_nodes.append(m)
                         allowed_nodes.append(m)
-                        cur_val = _node_output(m)
                         next_nodes = _consumer_nodes(nodes, cur_val)
                         if len(next_nodes) != 1:
                             break
@@ -1814,6 +1830,8 @@ def remove_redundant_reshape_pairs_ir(graph: ir.Graph) -> None:
 
             t1_out = _node_output(T1)
             if t1_out is not None:
+                if t1_out.is_graph_output():
+                    safe_chain = False
                 for consumer in _consumer_nodes(nodes, t1_out):
                     if consumer in chain_nodes or consumer is T2:
                         continue
@@ -1825,6 +1843,9 @@ def remove_redundant_reshape_pairs_ir(graph: ir.Graph) -> None:
                     out = _node_output(node)
                     if out is None:
                         continue
+                    if out.is_graph_output():
+                        safe_chain = False
+                        break
                     for consumer in _consumer_nodes(nodes, out):
                         if consumer in chain_nodes or consumer is T2:
                             continue
